@@ -55,6 +55,10 @@ type pipeConn struct {
 	delivered int
 	blocked   bool
 	wfail     bool // writes fail (client stopped reading / closed)
+	stall     bool // the client has stopped reading: writes are absorbed up to wcap bytes, then block
+	wcap      int  // bytes the (virtual) socket buffers still take while stalled
+	wdeadline bool // a write deadline is set (SetWriteDeadline / SetDeadline with a non-zero time)
+	wblocked  bool // a Write is waiting for the client to read
 	log       *evlog
 	signal    chan struct{} // poked on: blocked, closed, write
 }
@@ -88,6 +92,7 @@ func (c *pipeConn) finish(reset bool) {
 	c.eof = true
 	c.reset = reset
 	c.blocked = false
+	c.stall = false // the scripted client is gone or drains what is left: a waiting Write goes on (or fails, with wfail)
 	c.cond.Broadcast()
 	c.mu.Unlock()
 }
@@ -120,6 +125,13 @@ func (c *pipeConn) Read(p []byte) (int, error) {
 	}
 }
 
+// timeoutErr is what a Write returns when its deadline expires (net.Error with Timeout() == true).
+type timeoutErr struct{}
+
+func (timeoutErr) Error() string   { return "write: i/o timeout" }
+func (timeoutErr) Timeout() bool   { return true }
+func (timeoutErr) Temporary() bool { return true }
+
 func (c *pipeConn) Write(p []byte) (int, error) {
 	c.mu.Lock()
 	defer c.mu.Unlock()
@@ -130,10 +142,56 @@ func (c *pipeConn) Write(p []byte) (int, error) {
 		c.log.add(fmt.Sprintf("WX@%d:%s", c.delivered, hx(p)))
 		return 0, errors.New("write: broken pipe")
 	}
+	if c.stall && len(p) > c.wcap {
+		// the client is not reading: the socket buffers take wcap more bytes, then the write waits.  Virtual time: the
+		// client stays away longer than any deadline, so a write with a deadline fails with a timeout after the partial
+		// transfer, and a write without one waits until the client reads again (or goes away).
+		n := c.wcap
+		c.wcap = 0
+		c.log.add(fmt.Sprintf("WP@%d:%s", c.delivered, hx(p[:n])))
+		if c.wdeadline {
+			c.poke()
+			return n, timeoutErr{}
+		}
+		c.wblocked = true
+		c.poke()
+		for c.stall && c.closed == 0 && !c.wfail {
+			c.cond.Wait()
+		}
+		c.wblocked = false
+		if c.closed > 0 {
+			return n, net.ErrClosed
+		}
+		if c.wfail {
+			return n, errors.New("write: broken pipe")
+		}
+		c.log.add(fmt.Sprintf("WC@%d:%s", c.delivered, hx(p[n:])))
+		c.log.add(fmt.Sprintf("T:%d", atomic.AddInt64(&lclock, 1)))
+		c.poke()
+		return len(p), nil
+	}
+	if c.stall {
+		c.wcap -= len(p)
+	}
 	c.log.add(fmt.Sprintf("W@%d:%s", c.delivered, hx(p)))
 	c.log.add(fmt.Sprintf("T:%d", atomic.AddInt64(&lclock, 1))) // logical time of the response
 	c.poke()
 	return len(p), nil
+}
+
+// stallWrites: the client stops reading; n more bytes fit into the socket buffers.
+func (c *pipeConn) stallWrites(n int) {
+	c.mu.Lock()
+	c.stall, c.wcap = true, n
+	c.mu.Unlock()
+}
+
+// resumeWrites: the client reads again.
+func (c *pipeConn) resumeWrites() {
+	c.mu.Lock()
+	c.stall = false
+	c.cond.Broadcast()
+	c.mu.Unlock()
 }
 
 func (c *pipeConn) Close() error {
@@ -149,7 +207,7 @@ func (c *pipeConn) Close() error {
 func (c *pipeConn) isBlockedOrDone() (bool, bool) {
 	c.mu.Lock()
 	defer c.mu.Unlock()
-	return c.blocked && len(c.chunks) == 0, c.closed > 0
+	return (c.blocked && len(c.chunks) == 0) || c.wblocked, c.closed > 0
 }
 
 type dummyAddr string
@@ -157,11 +215,16 @@ type dummyAddr string
 func (a dummyAddr) Network() string { return "pipe" }
 func (a dummyAddr) String() string  { return string(a) }
 
-func (c *pipeConn) LocalAddr() net.Addr                { return dummyAddr("local") }
-func (c *pipeConn) RemoteAddr() net.Addr               { return dummyAddr("remote") }
-func (c *pipeConn) SetDeadline(t time.Time) error      { return nil }
-func (c *pipeConn) SetReadDeadline(t time.Time) error  { return nil }
-func (c *pipeConn) SetWriteDeadline(t time.Time) error { return nil }
+func (c *pipeConn) LocalAddr() net.Addr               { return dummyAddr("local") }
+func (c *pipeConn) RemoteAddr() net.Addr              { return dummyAddr("remote") }
+func (c *pipeConn) SetReadDeadline(t time.Time) error { return nil }
+func (c *pipeConn) SetDeadline(t time.Time) error     { return c.SetWriteDeadline(t) }
+func (c *pipeConn) SetWriteDeadline(t time.Time) error {
+	c.mu.Lock()
+	c.wdeadline = !t.IsZero()
+	c.mu.Unlock()
+	return nil
+}
 
 // ---------------------------------------------------------------- tracer double
 type dTracer struct{ logOf func() *evlog }
